@@ -17,7 +17,7 @@ import (
 func init() {
 	register(&Spec{ID: "C09", Title: "Passwords never cross the wire in clear when encryption is negotiated", Run: runC09,
 		Meta: core.Meta{
-			Explanation: "R09.8: in Login the store LoginConfigRemoteServer.Password := config.DSN.Password dominates the call of pack() — the entry is rebuilt at every login, never kept from an earlier one. Absence-of-flow, decided by taint analysis over SSA (E-TAINT). R09.1: sources are all loads of dsn.Info.Password and tds.LoginConfigRemoteServer.Password in package tds; the secret may flow only (A) into rsaEncrypt's password parameter, where it may only be appended after the nonce and handed to rsa.EncryptOAEP as the message; (B) into writeString at the single call site of LoginConfig.pack that is dominated by config.Encrypt differing from all four TDS_MSG_SEC_ENCRYPT* constants (the plain-mode password slot); (C) into the Password field of the synthesised first remote server. Every other use — an argument of fmt/log, a buffer or BytesChannel write, a store into another field or variable, a return to a caller that uses it otherwise — is a violation reported with the flow path. Control: at least one flow of each accepted kind must be found. R09.2: the OAEP call uses sha1.New(), crypto/rand.Reader, an empty label and append(nonce, secret...) (nonce first); rsaEncrypt is called with the account password, each remote password and the session key. R09.3: generateSymmetricKey returns the 32-byte buffer filled by crypto/rand.Read under the length check. R09.4 (E-CONST): the message ids for which pack leaves the password slot empty are exactly those for which Login does not take the plain flow. R09.6: in package tds no value whose type holds Info.Password or LoginConfigRemoteServer.Password (directly or through pointers, slices, maps, nested structs) is converted to an interface — the only way into fmt, log, errors or reflection, where %v of the struct would print the password. R09.7: no branch condition in package tds is computed from a password (its value, its length, a comparison), except a test whose one edge returns an error at once (a rejection decides nothing about what is sent): the bytes sent depend on a secret only through its ciphertext. R09.5: every field object retained in the parameter slices built inside Login's remote-server loop is created in the same iteration (an object shared across iterations would make all entries carry the last ciphertext).",
+			Explanation: "R09.9: in NewLoginConfig the store Encrypt := TDS_MSG_SEC_ENCRYPT4 dominates every success return (no DSN option switches the password encryption off). R09.8: in Login the store LoginConfigRemoteServer.Password := config.DSN.Password dominates the call of pack() — the entry is rebuilt at every login, never kept from an earlier one. Absence-of-flow, decided by taint analysis over SSA (E-TAINT). R09.1: sources are all loads of dsn.Info.Password and tds.LoginConfigRemoteServer.Password in package tds; the secret may flow only (A) into rsaEncrypt's password parameter, where it may only be appended after the nonce and handed to rsa.EncryptOAEP as the message; (B) into writeString at the single call site of LoginConfig.pack that is dominated by config.Encrypt differing from all four TDS_MSG_SEC_ENCRYPT* constants (the plain-mode password slot); (C) into the Password field of the synthesised first remote server. Every other use — an argument of fmt/log, a buffer or BytesChannel write, a store into another field or variable, a return to a caller that uses it otherwise — is a violation reported with the flow path. Control: at least one flow of each accepted kind must be found. R09.2: the OAEP call uses sha1.New(), crypto/rand.Reader, an empty label and append(nonce, secret...) (nonce first); rsaEncrypt is called with the account password, each remote password and the session key. R09.3: generateSymmetricKey returns the 32-byte buffer filled by crypto/rand.Read under the length check. R09.4 (E-CONST): the message ids for which pack leaves the password slot empty are exactly those for which Login does not take the plain flow. R09.6: in package tds no value whose type holds Info.Password or LoginConfigRemoteServer.Password (directly or through pointers, slices, maps, nested structs) is converted to an interface — the only way into fmt, log, errors or reflection, where %v of the struct would print the password. R09.7: no branch condition in package tds is computed from a password (its value, its length, a comparison), except a test whose one edge returns an error at once (a rejection decides nothing about what is sent): the bytes sent depend on a secret only through its ciphertext. R09.5: every field object retained in the parameter slices built inside Login's remote-server loop is created in the same iteration (an object shared across iterations would make all entries carry the last ciphertext).",
 			NotDecided:  "Cryptographic strength, what the standard library does with the bytes, and the length of the password (len() is not treated as a leak) are not decided.",
 			Assumptions: []string{"rsa.EncryptOAEP does not expose its message", "package tds is the only code that writes login bytes"},
 		}})
@@ -34,6 +34,8 @@ func runC09(r *core.Run) {
 	r.Rule("R09.6", "no value of a type that holds a password field is converted to an interface in package tds", 1, false)
 	r.Rule("R09.8", "the current server's remote-password entry is built from DSN.Password at login time", 1, false)
 	defer c09CurrentPassword(r)
+	r.Rule("R09.9", "NewLoginConfig requests the password encryption unconditionally", 1, false)
+	defer c09EncryptDefault(r)
 
 	srcA := p.Field("dsn", "Info", "Password")
 	srcB := p.Field("tds", "LoginConfigRemoteServer", "Password")
@@ -73,7 +75,7 @@ func runC09(r *core.Run) {
 		return false, ""
 	}
 	te.external = func(c ssa.CallInstruction, idx int) (string, bool) {
-		if core.IsPkgFunc(c, "crypto/rsa", "EncryptOAEP") && idx == 3 && c.Parent() == rsaEnc {
+		if core.IsPkgFunc(c, "crypto/rsa", "EncryptOAEP") && idx == 3 {
 			return "A: message of rsa.EncryptOAEP", false
 		}
 		return "", false
@@ -95,7 +97,8 @@ func runC09(r *core.Run) {
 		r.OK("R09.1", core.FuncName(a.Instr.Parent())+": accepted flow "+a.What, a.Instr.Pos(), strings.Join(a.Path, " → "))
 	}
 	// inside rsaEncrypt the tainted parameter must be only the password parameter
-	okParam := len(rsaEnc.Params) == 3 && te.tainted[rsaEnc.Params[2]] != "" && te.tainted[rsaEnc.Params[0]] == "" && te.tainted[rsaEnc.Params[1]] == ""
+	okParam := len(rsaEnc.Params) == 3 && te.tainted[rsaEnc.Params[0]] == "" && te.tainted[rsaEnc.Params[1]] == "" &&
+		(te.tainted[rsaEnc.Params[2]] != "" || len(callsTo(p.Func("tds", "Channel", "Login"), rsaEnc)) == 0)
 	r.Check(okParam, "R09.1", "rsaEncrypt: the secret arrives as the password parameter only", rsaEnc.Pos(), "only parameter 3 is tainted", "a password is passed to rsaEncrypt as the key or the nonce")
 	r.Check(kinds["A"] > 0 && kinds["B"] > 0 && kinds["C"] > 0, "R09.1", "control: flows of every accepted kind are seen", pack.Pos(),
 		"A (OAEP message), B (plain slot) and C (first remote server) flows found", "the analysis no longer sees one of the legitimate flows (A/B/C): it would pass vacuously")
@@ -229,55 +232,104 @@ func c09Containers(r *core.Run, secrets []*types.Var, funcs []*ssa.Function) {
 
 func c09OAEP(r *core.Run, rsaEnc *ssa.Function, srcA, srcB *types.Var) {
 	p := r.Prog
-	var oaep *ssa.Call
-	for _, c := range core.Calls(rsaEnc) {
-		if core.IsPkgFunc(c, "crypto/rsa", "EncryptOAEP") {
-			oaep, _ = c.(*ssa.Call)
+	// Every RSA-OAEP encryption in package tds (the one in rsaEncrypt on the reviewed tree; wherever a refactoring
+	// puts it — new helpers are inlined): SHA-1, crypto/rand.Reader, empty label, message = nonce then secret.
+	type site struct {
+		at            ssa.Instruction
+		nonce, secret ssa.Value
+	}
+	// message forms: append(N, S...)  |  append(append(E, N...), S...) with E an empty fresh slice
+	split := func(msg ssa.Value) (n, s ssa.Value, why string) {
+		ap, ok := msg.(*ssa.Call)
+		if !ok {
+			return nil, nil, "the OAEP message is " + core.Expr(msg) + ", not nonce followed by the secret in a buffer of its own"
 		}
-	}
-	if oaep == nil {
-		r.Bad("R09.2", "rsaEncrypt: rsa.EncryptOAEP", rsaEnc.Pos(), "rsaEncrypt no longer encrypts with RSA-OAEP")
-		return
-	}
-	a := oaep.Call.Args
-	h, isCall := a[0].(*ssa.Call)
-	r.Check(isCall && core.IsPkgFunc(h, "crypto/sha1", "New"), "R09.2", "rsaEncrypt: hash is SHA-1", oaep.Pos(), "sha1.New()", "the OAEP hash is not SHA-1: the server cannot decrypt")
-	okRand := false
-	if u, ok := core.Strip(a[1]).(*ssa.UnOp); ok {
-		if g, ok := u.X.(*ssa.Global); ok && g.Pkg.Pkg.Path() == "crypto/rand" && g.Name() == "Reader" {
-			okRand = true
+		bi, isB := ap.Call.Value.(*ssa.Builtin)
+		if !isB || bi.Name() != "append" || len(ap.Call.Args) != 2 {
+			return nil, nil, "the OAEP message is not append(nonce, secret...)"
 		}
+		if in, ok := ap.Call.Args[0].(*ssa.Call); ok {
+			if b2, isB2 := in.Call.Value.(*ssa.Builtin); isB2 && b2.Name() == "append" && len(in.Call.Args) == 2 {
+				if k, isK := core.MakeLen(in.Call.Args[0]); (isK && k == 0) || core.IsNil(in.Call.Args[0]) {
+					return core.Strip(in.Call.Args[1]), core.Strip(ap.Call.Args[1]), ""
+				}
+				if ms, isMS := in.Call.Args[0].(*ssa.MakeSlice); isMS {
+					if z, isC := core.ConstInt64(ms.Len); isC && z == 0 {
+						return core.Strip(in.Call.Args[1]), core.Strip(ap.Call.Args[1]), ""
+					}
+				}
+				return nil, nil, "the OAEP message is appended to " + core.Expr(in.Call.Args[0]) + ", which is not an empty buffer of its own"
+			}
+		}
+		return core.Strip(ap.Call.Args[0]), core.Strip(ap.Call.Args[1]), ""
 	}
-	r.Check(okRand, "R09.2", "rsaEncrypt: randomness is crypto/rand.Reader", oaep.Pos(), "rand.Reader", "OAEP is not seeded from crypto/rand.Reader: ciphertexts are not fresh")
-	// message = append(nonce, password...)
-	okMsg, whyMsg := false, "the OAEP message is not append(nonce, secret...)"
-	if ap, ok := a[3].(*ssa.Call); ok {
-		if bi, ok := ap.Call.Value.(*ssa.Builtin); ok && bi.Name() == "append" && len(ap.Call.Args) == 2 {
-			if ap.Call.Args[0] == ssa.Value(rsaEnc.Params[1]) && core.Strip(ap.Call.Args[1]) == ssa.Value(rsaEnc.Params[2]) {
-				okMsg = true
-			} else if ap.Call.Args[0] == ssa.Value(rsaEnc.Params[2]) {
-				whyMsg = "the secret precedes the nonce in the OAEP message"
+	nOAEP := 0
+	direct := map[*ssa.Function][]site{}
+	for _, fn := range p.ModuleFuncs() {
+		if fn.Blocks == nil || fn.Pkg == nil || fn.Pkg.Pkg.Path() != core.Module+"/tds" || p.FuncInOverlay(fn) {
+			continue
+		}
+		for _, c := range core.Calls(fn) {
+			if !core.IsPkgFunc(c, "crypto/rsa", "EncryptOAEP") {
+				continue
+			}
+			oaep, isCall := c.(*ssa.Call)
+			if !isCall {
+				continue
+			}
+			nOAEP++
+			where := core.FuncName(fn)
+			if fn == rsaEnc {
+				where = "rsaEncrypt"
+			}
+			a := oaep.Call.Args
+			h, isH := a[0].(*ssa.Call)
+			r.Check(isH && core.IsPkgFunc(h, "crypto/sha1", "New"), "R09.2", where+": hash is SHA-1", oaep.Pos(), "sha1.New()", "the OAEP hash is not SHA-1: the server cannot decrypt")
+			okRand := false
+			if u, ok := core.Strip(a[1]).(*ssa.UnOp); ok {
+				if g, ok := u.X.(*ssa.Global); ok && g.Pkg.Pkg.Path() == "crypto/rand" && g.Name() == "Reader" {
+					okRand = true
+				}
+			}
+			r.Check(okRand, "R09.2", where+": randomness is crypto/rand.Reader", oaep.Pos(), "rand.Reader", "OAEP is not seeded from crypto/rand.Reader: ciphertexts are not fresh")
+			n, s, whyMsg := split(a[3])
+			if whyMsg == "" && fn == rsaEnc && len(rsaEnc.Params) == 3 {
+				switch {
+				case s == ssa.Value(rsaEnc.Params[1]) || n == ssa.Value(rsaEnc.Params[2]):
+					whyMsg = "the secret precedes the nonce in the OAEP message"
+				case s != ssa.Value(rsaEnc.Params[2]):
+					whyMsg = "what follows the nonce in the OAEP message is " + core.Expr(s) + ", not the secret handed to rsaEncrypt"
+				case n != ssa.Value(rsaEnc.Params[1]):
+					if f, _ := core.FieldLoad(n); f == nil {
+						whyMsg = "the OAEP message starts with " + core.Expr(n) + ", not with the nonce as the server sent it"
+					}
+				}
+			}
+			if whyMsg == "" {
+				if _, isC := n.(*ssa.Const); isC {
+					whyMsg = "the OAEP message starts with a constant, not with the server's nonce"
+				}
+			}
+			r.Check(whyMsg == "", "R09.2", where+": message is nonce followed by the secret", oaep.Pos(), "append(nonce, password...)", whyMsg)
+			lbl, okL := core.MakeLen(a[4])
+			r.Check(okL && lbl == 0, "R09.2", where+": empty label", oaep.Pos(), "[]byte{}", "the OAEP label is not empty")
+			if whyMsg == "" {
+				direct[fn] = append(direct[fn], site{oaep, n, s})
 			}
 		}
 	}
-	r.Check(okMsg, "R09.2", "rsaEncrypt: message is nonce followed by the secret", oaep.Pos(), "append(nonce, password...)", whyMsg)
-	lbl, okL := core.MakeLen(a[4])
-	r.Check(okL && lbl == 0, "R09.2", "rsaEncrypt: empty label", oaep.Pos(), "[]byte{}", "the OAEP label is not empty")
+	if nOAEP == 0 {
+		r.Bad("R09.2", "rsaEncrypt: rsa.EncryptOAEP", rsaEnc.Pos(), "package tds no longer encrypts with RSA-OAEP")
+		return
+	}
 
-	// three kinds of secrets in Login
+	// three kinds of secrets in Login: through rsaEncrypt, or through an encryption that now lives in Login itself
 	login := p.Func("tds", "Channel", "Login")
 	gen := p.Func("tds", "", "generateSymmetricKey")
 	kinds := map[string]bool{}
 	sameKeyNonce := true
-	var k0, n0 ssa.Value
-	for _, c := range callsTo(login, rsaEnc) {
-		args := c.Common().Args
-		if k0 == nil {
-			k0, n0 = args[0], args[1]
-		} else if args[0] != k0 || args[1] != n0 {
-			sameKeyNonce = false
-		}
-		s := core.Strip(args[2])
+	classify := func(s ssa.Value) {
+		s = core.Strip(s)
 		if f, _ := core.FieldLoad(s); f == srcA {
 			kinds["account password"] = true
 		} else if f == srcB {
@@ -288,13 +340,26 @@ func c09OAEP(r *core.Run, rsaEnc *ssa.Function, srcA, srcB *types.Var) {
 			}
 		}
 	}
+	var k0, n0 ssa.Value
+	for _, c := range callsTo(login, rsaEnc) {
+		args := c.Common().Args
+		if k0 == nil {
+			k0, n0 = args[0], args[1]
+		} else if args[0] != k0 || args[1] != n0 {
+			sameKeyNonce = false
+		}
+		classify(args[2])
+	}
+	for _, st := range direct[login] {
+		classify(st.secret)
+	}
 	var have []string
 	for k := range kinds {
 		have = append(have, k)
 	}
 	sort.Strings(have)
 	r.Check(len(kinds) == 3 && sameKeyNonce, "R09.2", "Login: account password, remote passwords and session key are each RSA-encrypted under the server's key and nonce", login.Pos(), strings.Join(have, ", "),
-		"not all three kinds of secrets are passed to rsaEncrypt with the server's key and nonce (found: "+strings.Join(have, ", ")+")")
+		"not all three kinds of secrets are RSA-encrypted with the server's key and nonce (found: "+strings.Join(have, ", ")+")")
 }
 
 func c09SymKey(r *core.Run) {
